@@ -454,6 +454,37 @@ Section Store.
     end.
 End Store.
 
+
+(* ------------------------------------------------------------------ copy / rename: the source as a read path *)
+Section Copy.
+  Variable open : bytes -> bytes -> bytes -> bytes -> option bytes.
+
+  (* SidecarStore::copy_payload (sidecar.rs:746) with EncryptedStore's verify callback.  The handle's
+     metadata cache holds an arbitrary document (whatever an earlier load left there; DAbsent = miss),
+     the backend holds [backend]; [has_payload m] = the payload object m points at can be copied.
+     Loop: get_meta (cache, else load) ; verify ; copy payload ; on NotFound refresh_meta once and start
+     over.  Result: the document copy_opts builds the target's sealed document from. *)
+  Definition copy_source (strict : bool) (loc : bytes) (cached backend : docstate)
+             (has_payload : meta -> bool) : option meta :=
+    match (match cached with DDoc m => DDoc m | _ => backend end) with
+    | DDoc m =>
+      match verify_metadata open strict loc m with
+      | VErr => None
+      | _ =>
+        if has_payload m then Some m
+        else match backend with          (* refresh_meta: reload; the loop head fetches and verifies again *)
+             | DDoc m2 =>
+               match verify_metadata open strict loc m2 with
+               | VErr => None
+               | _ => if has_payload m2 then Some m2 else None
+               end
+             | _ => None
+             end
+      end
+    | _ => None
+    end.
+End Copy.
+
 (* ------------------------------------------------------------------ the write side *)
 Section Write.
   Variable seal : bytes -> bytes -> bytes -> bytes * bytes.   (* nonce aad pt -> (ct, tag) *)
